@@ -474,3 +474,32 @@ V("c19-fit-unsorted-parents", "C19", "fire", SE, "X = pd.DataFrame(self._data[k]
 V("c20-uniform-falsy-bound", "C20", "fire", NO, "def uniform(lo=0, hi=1):\n    return lambda n: np.random.uniform(lo, hi, n)", "def uniform(lo=None, hi=None):\n    lo, hi = lo or 0, hi or 1\n    return lambda n: np.random.uniform(lo, hi, n)", rule="SLOTS.uniform", what="an upper bound of exactly 0 is replaced by 1")
 V("c11-inverse-relabelling", "C11", "fire", GE, "    permutation = rng.permutation(p)\n    # Note the actual topological ordering is the \"conjugate\" of permutation eg. [3,1,2] -> [2,3,1]\n    if return_ordering:\n        return (W[permutation, :][:, permutation], np.argsort(permutation))\n    else:\n        return W[permutation, :][:, permutation]",
   "    permutation = rng.permutation(p)\n    permuted = np.zeros_like(W)\n    permuted[np.ix_(permutation, permutation)] = W\n    if return_ordering:\n        return (permuted, np.argsort(permutation))\n    else:\n        return permuted", rule="PERM", what="graph relabelled with the inverse permutation, ordering unchanged")
+
+# ------------------------------------------------------------------------------- renaming of locals (must be silent)
+def RN(prop, rel, qual):
+    VARIANTS.append(dict(id="rn-%s-%s" % (prop.lower(), qual.replace(".", "-")), prop=prop, expect="silent", edits=[("@rename_locals", rel, qual)], rule=None,
+                         what="every local variable of %s renamed; function re-emitted by ast.unparse" % qual))
+
+
+for _p, _rel, _q in [
+    ("C01", LG, "LGANM.sample"), ("C01", LG, "_parse_interventions"), ("C01", LG, "LGANM.__init__"),
+    ("C02", AN, "ANM.sample"), ("C02", AN, "ANM.__init__"),
+    ("C03", UT, "topological_ordering"), ("C03", UT, "is_dag"), ("C03", LG, "LGANM.__init__"), ("C03", SE, "BayesianNetwork.__init__"),
+    ("C04", ND, "NormalDistribution.sample"), ("C04", LG, "LGANM.sample"),
+    ("C05", ND, "NormalDistribution.conditional"), ("C05", ND, "NormalDistribution.marginal"), ("C05", ND, "NormalDistribution.__init__"),
+    ("C06", ND, "NormalDistribution.regress"), ("C06", ND, "NormalDistribution.mse"),
+    ("C07", UT, "all_dags"), ("C07", UT, "chain_graph_MEC"), ("C07", UT, "is_consistent_extension"), ("C07", UT, "mec"),
+    ("C08", UT, "dag_to_cpdag"), ("C08", UT, "label_edges"), ("C08", UT, "order_edges"), ("C08", UT, "pdag_to_dag"), ("C08", UT, "pdag_to_cpdag"),
+    ("C10", UT, "dag_to_icpdag"), ("C10", UT, "maximally_orient"), ("C10", UT, "chain_graph_IMEC"), ("C10", UT, "imec"), ("C10", UT, "pdag_to_icpdag"),
+    ("C11", GE, "dag_avg_deg"), ("C11", GE, "dag_full"),
+    ("C12", GE, "intervention_targets"),
+    ("C13", GE, "intervention_targets"), ("C13", UT, "split_data"), ("C13", AN, "ANM.sample"),
+    ("C14", UT, "pdag_to_dag"), ("C14", UT, "semi_directed_paths"), ("C14", UT, "all_dags"), ("C14", LG, "LGANM.sample"),
+    ("C15", UT, "semi_directed_paths"), ("C15", UT, "separates"), ("C15", UT, "chain_component"), ("C15", UT, "ancestors"), ("C15", UT, "desc"), ("C15", UT, "transitive_closure"),
+    ("C16", UT, "vstructures"), ("C16", UT, "moral_graph"), ("C16", UT, "only_directed"), ("C16", UT, "induced_subgraph"), ("C16", UT, "is_clique"), ("C16", UT, "undirected_edges"), ("C16", UT, "edge_weights"),
+    ("C17", UT, "split_data"),
+    ("C18", UT, "add_edges"), ("C18", UT, "remove_edges"),
+    ("C19", SE, "DRFNet.sample"), ("C19", SE, "DRFNet.__init__"), ("C19", SE, "_bootstrap"), ("C19", SE, "BayesianNetwork.sample"),
+    ("C20", NO, "normal"), ("C20", NO, "uniform"),
+]:
+    RN(_p, _rel, _q)
